@@ -44,6 +44,9 @@ CHECKS = {
  "C10": ("fault_enumeration", "mutation enumeration (every truncation length, every position x value substitution) with a prefix/identity oracle from an independent parser",
          "For ten BGZF/BAM streams every cut length (small streams) and every single-byte substitution from the stated value sets is applied and the mutant is read with the real readers (rd 1 and 2); the oracle accepts failure, the original data, or for truncation a clean end only at a member (and record) boundary with everything before it returned and HasEOF false.",
          "Large streams are sampled away from member boundaries; a NewReader error counts as failure.", "3 C10"),
+ "C06": ("exploration", "independent SAM formatter as output monitor; format/parse/format round-trip monitor; SAM-vs-BAM differential; checkptr build",
+         "Generated text-expressible records are formatted with the real MarshalSAM (decimal and hex flags), compared with a formatter written from SAMv1 1.4/1.5, parsed back and compared field by field and line by line, pushed through a BAM round trip and re-formatted, and generated SAM texts (LF/CRLF, with/without final newline and header) are read with sam.Reader.",
+         "FlagString is not parsed back; NaN and lower-case bases excluded; a lone '*' quality (phred 9 on a 1-base read) is ambiguous in SAM and not generated.", "3 C06"),
 }
 NOT_BUILT = "check not built yet in this session; see DESIGN.md section 3 for the planned monitor"
 
